@@ -399,4 +399,17 @@ theorem C05_closure_meta (e : Env) (name : String) (old new : ModelSig)
     simp [c1, c2, c3, c4, c5, step, applyMetas, h1, h2, h3, h4, h5, s1, s2, s3, s4, s5]
   all_goals (simp_all [utChanged])
 
+/-! ## stored values are read as stored -/
+
+/-- **an attribute that is stored is read as stored** - whatever the value: `0`, `False`, the empty string and `None`
+are values like any other, the default is only for attributes that are absent -/
+theorem C05_attr_value_is_stored (e : Env) (f : FieldSig) (a : String) (v : Val) (h : dGet f.attrs a = some v) :
+    e.attrValue f a = v := by
+  unfold Env.attrValue
+  rw [h]
+
+/-- `FieldSignature.get_attr_value` of the current source goes by the presence of the key (read by the translator on
+every run) -/
+theorem C05_source_attr_value_by_presence : DEvo.Generated.attrValueByPresence = true := by decide
+
 end DEvo.Props.C05
